@@ -25,7 +25,10 @@ class BitcoinVM(VM):
     INSTRUCTION_LOOKUP = make_instruction_lookup(opcodes.OPCODE_LIST)
     ScriptStreamer = BitcoinScriptStreamer
 
-    def pop_int(self) -> int:
+    def pop_int(self, max_size: int = 4) -> int:
+        # numeric operands are limited to 4 bytes (5 for the lock-time opcodes)
+        if len(self[-1]) > max_size:
+            raise ScriptError("script number overflow", errno.UNKNOWN_ERROR)
         return self.IntStreamer.int_from_script_bytes(  # type: ignore[no-any-return]
             self.pop(), require_minimal=bool(self.flags & VERIFY_MINIMALDATA)
         )
